@@ -101,7 +101,35 @@ def select_table(ob, b, kind):
             return "def"
         return who(t)
 
+    def map_or_kind(t):
+        """`a.map_or(b, |x| min(b, x))` with {a, b} = {header, default}: "map_or(a,b)" = min when a is present, else b"""
+        from . import lib as _l
+        t = strip_identity(t)
+        if not (t[0] == "call" and name_matches(t[1], "core::option::Option::map_or") and len(t[2]) == 3):
+            return None
+        w0, w1 = who_field(t[2][0]), who_field(t[2][1])
+        ct = strip_identity(t[2][2])
+        if {w0, w1} != {"req", "def"} or not (ct[0] == "agg" and ct[1] == "closure" and ct[2] in _l._PROG.bodies):
+            return None
+        kb = _l._PROG.bodies[ct[2]]
+        r = strip_identity(Origins(kb).of_local(0))
+        if not (r[0] == "call" and name_matches(r[1], ("cmp::min", "cmp::Ord::min")) and len(r[2]) == 2):
+            return None
+        xs = [strip_identity(x) for x in r[2]]
+        pars = [x for x in xs if x[0] == "param"]
+        ups = [x for x in xs if x[0] != "param"]
+        if len(pars) != 1 or len(ups) != 1 or not any(y[0] == "upvar" for y in walk(ups[0])):
+            return None
+        # the captured operand is the same value that is used when `a` is absent
+        cap = [strip_identity(x) for x in ct[3]]
+        if len(cap) != 1 or who_field(cap[0]) != w1:
+            return None
+        return f"map_or({w0},{w1})"
+
     def call_sym(c, oo):
+        if name_matches(c.fn, "core::option::Option::map_or") and map_or_kind(("call", c.fn, tuple(oo.of_operand(a) for a in c.args), c.bb)) is not None:
+            k_ = map_or_kind(("call", c.fn, tuple(oo.of_operand(a) for a in c.args), c.bb))
+            return ("v=" + k_) if (isinstance(c.dest, int) and c.dest in carriers) else None
         if name_matches(c.fn, f"{TO}::try_parse_timeout"):
             t = strip_identity(oo.of_operand(c.args[0]))
             ok = t[0] == "call" and name_matches(t[1], "Request::headers") and is_param(t[2][0], "req")
@@ -167,6 +195,8 @@ def select_table(ob, b, kind):
                     return "td=Some(min(req,def))" if ws_ == {"req", "def"} else f"td=Some(min?{sorted(ws_)})"
                 if t[0] == "call" and name_matches(t[1], ("cmp::max", "cmp::Ord::max")):
                     return "td=Some(max)"
+                if map_or_kind(t) is not None:
+                    return f"td=Some({map_or_kind(t)})"
                 return f"td=Some({who_field(t)})"
             t = oo.of_rvalue(rv)
             ts_ = strip_identity(t)
@@ -218,6 +248,14 @@ def select_table(ob, b, kind):
                    f"{kind}/call-skeleton/{skeleton.replace(' ', '_')}",
                    f"{b.path}: path does `{skeleton}` instead of parse → inner.call(req) once → sleep from the effective timeout → ResponseFuture",
                    b.path, b.loc())
+        if td is not None and td.startswith("Some(map_or("):
+            # Some(a.map_or(b, |x| min(b, x))): min when `a` is present, b otherwise - evaluated for both states of `a`
+            a_, b_ = td[len("Some(map_or("):-2].split(",")
+            for st_ in ([conds[a_]] if conds.get(a_) in ("Some", "None") else ["Some", "None"]):
+                k2 = dict(conds)
+                k2[a_] = st_
+                table.setdefault((k2.get("req"), k2.get("def")), set()).add(("Some(min(req,def))" if st_ == "Some" else f"Some({b_})", tuple(cmps)))
+            continue
         if td is not None and td.startswith("or("):
             # `first.or(second)`: the first one that is present; evaluated for every (header, default) case this path covers
             first, second = td[3:-1].split(",")
@@ -226,6 +264,13 @@ def select_table(ob, b, kind):
                     pres = {"req": r_ == "Some", "def": d_ == "Some"}
                     v_ = f"Some({first})" if pres[first] else (f"Some({second})" if pres[second] else "None")
                     table.setdefault((r_, d_), set()).add((v_, tuple(cmps)))
+            continue
+        if td in ("req", "def") and conds.get(td) not in ("Some", "None"):
+            # the whole Option copied without testing it (`None => default`): evaluated for both of its states
+            for st_ in ("Some", "None"):
+                k2 = dict(conds)
+                k2[td] = st_
+                table.setdefault((k2.get("req"), k2.get("def")), set()).add((f"Some({td})" if st_ == "Some" else "None", tuple(cmps)))
             continue
         table.setdefault(key, set()).add((td, tuple(cmps)))
     return table
